@@ -568,6 +568,8 @@ def main():
         b = None
         violations.append(('the harness does not build against the current /repo', dict(kind='build', log=str(e))))
     hyg = hygiene()
+    if b is not None and any('LitsAdvisory' in f for f in b.failed_files):
+        notes.append('advisory: the small-literal occurrence lists of some limb routine changed (Proofs/Ff(g)LitsAdvisory.v); the routines themselves are re-translated and proved equal to the model, so this is a note, not an obligation')
     if os.environ.get('VERIF_SUBSEARCH'):
         # a search round of a parent run that has already judged the proofs: correspondence only
         cp = dict(ok=True, theorems=[], axioms=[], log='', file='Properties/%s.v' % pid)
